@@ -460,7 +460,7 @@ impl World {
         let now = self.now;
         let deadline = now + self.cfg.connect_timeout_ms;
         self.conns_opened += 1;
-        self.outbuf.clear();
+        self.outbuf = Vec::with_capacity(self.cfg.cap_for(self.conns_opened));
         self.conn = Some(Conn { index: self.conns_opened, opened_at: now, last_tx_at: now, ..Default::default() });
         match guarded(|| self.eng.open(now, deadline)) {
             Err(message) => self.panic_violation("handle_network_event(opened)", message),
